@@ -214,6 +214,10 @@ def plan(tier, seed):
                 if mode == "seq":
                     for c in range(1, ncalls + 1):
                         descs.append({"w": w, "st": st, "mode": mode, "kind": "raise", "call": c})
+                if tier == "quick" and mode == "seq" and w == "map3+reduce" and st in ("file_array", "dict"):
+                    # an older complete run with other inputs lives in the folder; the new run (cleanup=True) dies at event k
+                    for k in range(1, len(ev) + 8, 2):
+                        descs.append({"w": w, "st": st, "mode": mode, "kind": "stale", "k": k})
                 if tier == "thorough" and mode == "seq":
                     for k, tear in rng.sample(pts, min(len(pts), 25)):
                         descs.append({"w": w, "st": st, "mode": mode, "kind": "double", "k": k, "tear": tear,
@@ -448,6 +452,8 @@ def finalize(agg, tier, seed):
         floors.append("fewer than 10 raise points")
     if c.get("resumes", 0) < (300 if tier == "quick" else 3000):
         floors.append(f"only {c.get('resumes', 0)} crash-and-resume pairs")
+    if c.get("stale_crashes", 0) < 20:
+        floors.append("fewer than 20 crashes over an older run in the same folder")
     if c.get("stored_elements_at_crash", 0) < 100:
         floors.append("fewer than 100 stored elements observed at crash time (recompute monitor idle)")
     return floors, {"exhaustive_note": "every recorded logical fs event of every listed workload x storage is a crash point"}
